@@ -1,0 +1,13 @@
+//go:build verif
+
+package agentstorage
+
+// VerifHook, when set by a verification harness, is called at named points of
+// Torrent.WritePiece (build tag "verif" only). A blocking hook acts as a scheduler gate.
+var VerifHook func(point string)
+
+func verifPoint(point string) {
+	if h := VerifHook; h != nil {
+		h(point)
+	}
+}
